@@ -73,6 +73,7 @@ VARIABLES
   clearOwed,                      \* C04/C15: values owed an exit by the running Clear
   gets,                           \* number of Get calls since creation / last Clear
   dropped,                        \* number of new-key Sets refused because the buffer was full
+  lastUpd,                        \* expirations replaced by the latest in-place overwrite: [old, new] (coverage goals)
   clrOverlap,                     \* C15: some other call overlapped the running Clear
   raised,                         \* C03: some overwrite raised an accounted cost or MaxCost was lowered
   bad                             \* set of strings: action-level property violations latched
@@ -80,7 +81,7 @@ VARIABLES
 implVars == <<store, em, lastCleaned, pol, used, maxCost, door, cnt, buf, sendq, apc, areg, sweepQ,
               sweepNow, pc, creg, now, tickPending, running, stopq, closed, met>>
 histVars == <<nextVal, ops, exitCnt, evictCnt, rejectCnt, accepted, refused, valKey, delOblig,
-              waitCover, mustMiss, clearOwed, gets, dropped, clrOverlap, raised, bad>>
+              waitCover, mustMiss, clearOwed, gets, dropped, lastUpd, clrOverlap, raised, bad>>
 vars == <<implVars, histVars>>
 
 ZeroMet == [hit |-> 0, miss |-> 0, keyAdd |-> 0, keyUpdate |-> 0, keyEvict |-> 0, costAdd |-> 0,
@@ -111,7 +112,7 @@ Init ==
   /\ exitCnt = [v \in Vals |-> 0] /\ evictCnt = [v \in Vals |-> 0] /\ rejectCnt = [v \in Vals |-> 0]
   /\ accepted = {} /\ refused = {} /\ valKey = [v \in Vals |-> 0]
   /\ delOblig = {} /\ waitCover = [c \in Clients |-> {}] /\ mustMiss = {}
-  /\ clearOwed = [c \in Clients |-> {}] /\ gets = 0 /\ dropped = 0 /\ clrOverlap = FALSE /\ raised = FALSE /\ bad = {}
+  /\ clearOwed = [c \in Clients |-> {}] /\ gets = 0 /\ dropped = 0 /\ lastUpd = [old |-> 0, new |-> 0] /\ clrOverlap = FALSE /\ raised = FALSE /\ bad = {}
 
 (* ------------------------------------------------------------------------------------------ *)
 (* helpers                                                                                      *)
@@ -158,7 +159,8 @@ SetBegin(c, k, cost, ttl) ==      \* clock read, store.Update critical section, 
              THEN /\ store' = [store EXCEPT ![h] = [val |-> v, exp |-> exp, conf |-> q]]
                   /\ em' = EmAdd(EmDel(em, h, e.exp), h, q, exp)
                   /\ exitCnt' = Exit1(exitCnt, e.val)
-             ELSE UNCHANGED <<store, em, exitCnt>>
+                  /\ lastUpd' = [old |-> e.exp, new |-> exp]
+             ELSE UNCHANGED <<store, em, exitCnt, lastUpd>>
         /\ creg' = [creg EXCEPT ![c] = [t |-> IF updated THEN "upd" ELSE "new", k |-> k, h |-> h,
                                          conf |-> q, val |-> v, cost |-> cost, exp |-> exp, c |-> c]]
         /\ pc' = [pc EXCEPT ![c] = "set_send"]
@@ -183,8 +185,8 @@ SetSend(c) ==                     \* select { case c.setBuf <- i: ... default: .
   /\ pc' = [pc EXCEPT ![c] = "idle"]
   /\ UNCHANGED <<store, em, lastCleaned, pol, used, maxCost, door, cnt, sendq, apc, areg, sweepQ, 
                  sweepNow, creg, now, tickPending, running, stopq, closed, nextVal, ops, exitCnt, 
-                 evictCnt, rejectCnt, valKey, delOblig, waitCover, mustMiss, clearOwed, gets, clrOverlap, 
-                 raised, bad>>
+                 evictCnt, rejectCnt, valKey, delOblig, waitCover, mustMiss, clearOwed, gets, lastUpd, 
+                 clrOverlap, raised, bad>>
 
 (* ------------------------------------------------------------------------------------------ *)
 (* Del                                                                                          *)
@@ -203,7 +205,8 @@ DelBegin(c, k) ==                 \* store.Del critical section, onExit(prev)
   /\ clrOverlap' = (clrOverlap \/ InClear)
   /\ UNCHANGED <<lastCleaned, pol, used, maxCost, door, cnt, buf, sendq, apc, areg, sweepQ, sweepNow, now, 
                  tickPending, running, stopq, closed, met, nextVal, evictCnt, rejectCnt, accepted, 
-                 refused, valKey, delOblig, waitCover, mustMiss, clearOwed, gets, dropped, raised, bad>>
+                 refused, valKey, delOblig, waitCover, mustMiss, clearOwed, gets, dropped, lastUpd, 
+                 raised, bad>>
 
 \* history bookkeeping at the return of Del(k) by client c (a Set of k in flight is concurrent with
 \* the Del and therefore not "earlier")
@@ -223,7 +226,7 @@ DelSend(c) ==                     \* c.setBuf <- tombstone  (blocking send)
   /\ UNCHANGED <<store, em, lastCleaned, pol, used, maxCost, door, cnt, apc, areg, sweepQ, sweepNow, creg, 
                  now, tickPending, running, stopq, closed, met, nextVal, ops, exitCnt, evictCnt, 
                  rejectCnt, accepted, refused, valKey, waitCover, mustMiss, clearOwed, gets, dropped, 
-                 clrOverlap, raised, bad>>
+                 lastUpd, clrOverlap, raised, bad>>
 
 (* ------------------------------------------------------------------------------------------ *)
 (* Wait                                                                                         *)
@@ -239,7 +242,8 @@ WaitCall(c) ==                    \* c.setBuf <- marker (blocking), then <-wait
   /\ clrOverlap' = (clrOverlap \/ InClear)
   /\ UNCHANGED <<store, em, lastCleaned, pol, used, maxCost, door, cnt, apc, areg, sweepQ, sweepNow, now, 
                  tickPending, running, stopq, closed, met, nextVal, exitCnt, evictCnt, rejectCnt, 
-                 accepted, refused, valKey, delOblig, mustMiss, clearOwed, gets, dropped, raised, bad>>
+                 accepted, refused, valKey, delOblig, mustMiss, clearOwed, gets, dropped, lastUpd, raised, 
+                 bad>>
 
 (* A receive from setBuf (by the applier or by Clear's drain loop) removes the head and, as Go's
    channel does, moves the item of the first blocked sender into the buffer in the same step.
@@ -270,7 +274,8 @@ Get(c, k) ==                      \* getBuf.Push (frequency), store.get, hit/mis
   /\ clrOverlap' = (clrOverlap \/ InClear)
   /\ UNCHANGED <<store, em, lastCleaned, pol, used, maxCost, buf, sendq, apc, areg, sweepQ, sweepNow, pc, 
                  creg, now, tickPending, running, stopq, closed, nextVal, exitCnt, evictCnt, rejectCnt, 
-                 accepted, refused, valKey, delOblig, waitCover, mustMiss, clearOwed, dropped, raised>>
+                 accepted, refused, valKey, delOblig, waitCover, mustMiss, clearOwed, dropped, lastUpd, 
+                 raised>>
 
 GetTTL(c, k) ==                   \* store.Get, store.Expiration, clock (no hook between the reads:
   /\ pc[c] = "idle" /\ ops < MaxOps /\ ~Closing /\ "gettl" \in Ops  \* one step at the grain of the gates)
@@ -278,7 +283,7 @@ GetTTL(c, k) ==                   \* store.Get, store.Expiration, clock (no hook
   /\ UNCHANGED <<store, em, lastCleaned, pol, used, maxCost, door, cnt, buf, sendq, apc, areg, sweepQ, 
                  sweepNow, pc, creg, now, tickPending, running, stopq, closed, met, nextVal, exitCnt, 
                  evictCnt, rejectCnt, accepted, refused, valKey, delOblig, waitCover, mustMiss, clearOwed, 
-                 gets, dropped, clrOverlap, raised, bad>>
+                 gets, dropped, lastUpd, clrOverlap, raised, bad>>
 
 Iter(c) ==                        \* IterValues (read only; one step in the model)
   /\ pc[c] = "idle" /\ CanCall /\ "iter" \in Ops
@@ -286,7 +291,7 @@ Iter(c) ==                        \* IterValues (read only; one step in the mode
   /\ UNCHANGED <<store, em, lastCleaned, pol, used, maxCost, door, cnt, buf, sendq, apc, areg, sweepQ, 
                  sweepNow, pc, creg, now, tickPending, running, stopq, closed, met, nextVal, exitCnt, 
                  evictCnt, rejectCnt, accepted, refused, valKey, delOblig, waitCover, mustMiss, clearOwed, 
-                 gets, dropped, clrOverlap, raised, bad>>
+                 gets, dropped, lastUpd, clrOverlap, raised, bad>>
 
 SetMaxCost(c, m) ==
   /\ pc[c] = "idle" /\ ops < MaxOps /\ ~Closing /\ "maxcost" \in Ops
@@ -295,7 +300,7 @@ SetMaxCost(c, m) ==
   /\ UNCHANGED <<store, em, lastCleaned, pol, used, door, cnt, buf, sendq, apc, areg, sweepQ, sweepNow, 
                  pc, creg, now, tickPending, running, stopq, closed, met, nextVal, exitCnt, evictCnt, 
                  rejectCnt, accepted, refused, valKey, delOblig, waitCover, mustMiss, clearOwed, gets, 
-                 dropped, clrOverlap, bad>>
+                 dropped, lastUpd, clrOverlap, bad>>
 
 (* ------------------------------------------------------------------------------------------ *)
 (* applier: policy.Add                                                                          *)
@@ -383,7 +388,7 @@ AppDequeue ==      \* receive from setBuf, evaluate cost, policy critical sectio
                /\ UNCHANGED <<mustMiss, bad, raised>>
   /\ UNCHANGED <<store, em, lastCleaned, maxCost, door, cnt, sweepQ, sweepNow, creg, now, tickPending, 
                  running, stopq, closed, nextVal, ops, exitCnt, evictCnt, rejectCnt, accepted, refused, 
-                 valKey, waitCover, clearOwed, gets, dropped, clrOverlap>>
+                 valKey, waitCover, clearOwed, gets, dropped, lastUpd, clrOverlap>>
 
 AfterItem == IF areg.victims # <<>> THEN "victims" ELSE "idle"
 
@@ -399,7 +404,7 @@ AppStoreSet ==     \* lockedMap.Set under the shard lock, keyAdd metric
   /\ UNCHANGED <<lastCleaned, pol, used, maxCost, door, cnt, buf, sendq, areg, sweepQ, sweepNow, pc, creg, 
                  now, tickPending, running, stopq, closed, nextVal, ops, exitCnt, evictCnt, rejectCnt, 
                  accepted, refused, valKey, delOblig, waitCover, mustMiss, clearOwed, gets, dropped, 
-                 clrOverlap, raised, bad>>
+                 lastUpd, clrOverlap, raised, bad>>
 
 AppReject ==       \* onReject(i) -> OnReject, OnExit
   /\ apc = "new_rej"
@@ -409,7 +414,7 @@ AppReject ==       \* onReject(i) -> OnReject, OnExit
   /\ UNCHANGED <<store, em, lastCleaned, pol, used, maxCost, door, cnt, buf, sendq, areg, sweepQ, 
                  sweepNow, pc, creg, now, tickPending, running, stopq, closed, met, nextVal, ops, 
                  evictCnt, accepted, refused, valKey, delOblig, waitCover, mustMiss, clearOwed, gets, 
-                 dropped, clrOverlap, raised, bad>>
+                 dropped, lastUpd, clrOverlap, raised, bad>>
 
 AppVictim ==       \* store.Del(victim, 0) + onEvict
   /\ apc = "victims"
@@ -422,7 +427,8 @@ AppVictim ==       \* store.Del(victim, 0) + onEvict
      /\ apc' = IF Tail(areg.victims) = <<>> THEN "idle" ELSE "victims"
   /\ UNCHANGED <<lastCleaned, pol, used, maxCost, door, cnt, buf, sendq, sweepQ, sweepNow, pc, creg, now, 
                  tickPending, running, stopq, closed, met, nextVal, ops, rejectCnt, accepted, refused, 
-                 valKey, delOblig, waitCover, mustMiss, clearOwed, gets, dropped, clrOverlap, raised, bad>>
+                 valKey, delOblig, waitCover, mustMiss, clearOwed, gets, dropped, lastUpd, clrOverlap, 
+                 raised, bad>>
 
 AppDelStore ==     \* store.Del(key, conflict) + onExit of a tombstone
   /\ apc = "del_store"
@@ -436,7 +442,7 @@ AppDelStore ==     \* store.Del(key, conflict) + onExit of a tombstone
   /\ UNCHANGED <<lastCleaned, pol, used, maxCost, door, cnt, buf, sendq, areg, sweepQ, sweepNow, pc, creg, 
                  now, tickPending, running, stopq, closed, met, nextVal, ops, evictCnt, rejectCnt, 
                  accepted, refused, valKey, delOblig, waitCover, mustMiss, clearOwed, gets, dropped, 
-                 clrOverlap, raised, bad>>
+                 lastUpd, clrOverlap, raised, bad>>
 
 (* ------------------------------------------------------------------------------------------ *)
 (* expiry sweep (ticker arm of the applier's select; expirationMap.cleanup)                      *)
@@ -453,7 +459,8 @@ SweepGrab ==       \* under the em lock: take whole buckets, advance the frontie
      /\ apc' = IF grabbed = {} THEN "idle" ELSE "sweep_check"
   /\ UNCHANGED <<store, pol, used, maxCost, door, cnt, buf, sendq, areg, pc, creg, now, running, stopq, 
                  closed, met, nextVal, ops, exitCnt, evictCnt, rejectCnt, accepted, refused, valKey, 
-                 delOblig, waitCover, mustMiss, clearOwed, gets, dropped, clrOverlap, raised, bad>>
+                 delOblig, waitCover, mustMiss, clearOwed, gets, dropped, lastUpd, clrOverlap, raised, 
+                 bad>>
 
 SweepCheck(x) ==   \* code as it was: store.Expiration under RLock, `expr.After(now)` => skip.
                    \* FixAtomic (repair of F4): store.DelExpired - check and delete under one shard lock
@@ -478,7 +485,7 @@ SweepCheck(x) ==   \* code as it was: store.Expiration under RLock, `expr.After(
   /\ UNCHANGED <<lastCleaned, pol, used, maxCost, door, cnt, buf, sendq, sweepNow, pc, creg, now, 
                  tickPending, running, stopq, closed, met, nextVal, ops, exitCnt, evictCnt, rejectCnt, 
                  accepted, refused, valKey, delOblig, waitCover, mustMiss, clearOwed, gets, dropped, 
-                 clrOverlap, raised, bad>>
+                 lastUpd, clrOverlap, raised, bad>>
 
 SweepPolDel ==     \* policy.Cost + policy.Del
   /\ apc = "sweep_poldel"
@@ -491,7 +498,7 @@ SweepPolDel ==     \* policy.Cost + policy.Del
   /\ UNCHANGED <<store, em, lastCleaned, maxCost, door, cnt, buf, sendq, areg, sweepQ, sweepNow, pc, creg, 
                  now, tickPending, running, stopq, closed, nextVal, ops, exitCnt, evictCnt, rejectCnt, 
                  accepted, refused, valKey, delOblig, waitCover, mustMiss, clearOwed, gets, dropped, 
-                 clrOverlap, raised, bad>>
+                 lastUpd, clrOverlap, raised, bad>>
 
 SweepStoreDel ==   \* code as it was: store.Del(key, conflict) + onEvict.  FixAtomic: only onEvict is left
   /\ apc = "sweep_storedel"
@@ -509,8 +516,8 @@ SweepStoreDel ==   \* code as it was: store.Del(key, conflict) + onEvict.  FixAt
   /\ apc' = IF sweepQ = {} THEN "idle" ELSE "sweep_check"
   /\ UNCHANGED <<lastCleaned, pol, used, maxCost, door, cnt, buf, sendq, areg, sweepQ, sweepNow, pc, creg, 
                  now, tickPending, running, stopq, closed, met, nextVal, ops, rejectCnt, accepted, 
-                 refused, valKey, delOblig, waitCover, mustMiss, clearOwed, gets, dropped, clrOverlap, 
-                 raised>>
+                 refused, valKey, delOblig, waitCover, mustMiss, clearOwed, gets, dropped, lastUpd, 
+                 clrOverlap, raised>>
 
 Tick ==            \* the clock advances by one tick; the ticker fires (channel of capacity 1)
   /\ now < MaxTime
@@ -518,7 +525,7 @@ Tick ==            \* the clock advances by one tick; the ticker fires (channel 
   /\ UNCHANGED <<store, em, lastCleaned, pol, used, maxCost, door, cnt, buf, sendq, apc, areg, sweepQ, 
                  sweepNow, pc, creg, running, stopq, closed, met, nextVal, ops, exitCnt, evictCnt, 
                  rejectCnt, accepted, refused, valKey, delOblig, waitCover, mustMiss, clearOwed, gets, 
-                 dropped, clrOverlap, raised, bad>>
+                 dropped, lastUpd, clrOverlap, raised, bad>>
 
 (* ------------------------------------------------------------------------------------------ *)
 (* Clear / Close                                                                                *)
@@ -533,7 +540,8 @@ ClearCall(c, kind) ==   \* the call begins; the client blocks in `c.stop <- stru
   /\ clrOverlap' = (InClear \/ \E d \in Clients \ {c} : pc[d] # "idle")
   /\ UNCHANGED <<store, em, lastCleaned, pol, used, maxCost, door, cnt, buf, sendq, apc, areg, sweepQ, 
                  sweepNow, now, tickPending, running, closed, met, nextVal, exitCnt, evictCnt, rejectCnt, 
-                 accepted, refused, valKey, delOblig, waitCover, mustMiss, gets, dropped, raised, bad>>
+                 accepted, refused, valKey, delOblig, waitCover, mustMiss, gets, dropped, lastUpd, raised, 
+                 bad>>
 
 ClearStop(c) ==         \* the applier takes the stop arm, signals done and exits
   /\ pc[c] = "clr_stop" /\ running /\ apc = "idle" /\ stopq # <<>> /\ Head(stopq) = c
@@ -542,7 +550,7 @@ ClearStop(c) ==         \* the applier takes the stop arm, signals done and exit
   /\ UNCHANGED <<store, em, lastCleaned, pol, used, maxCost, door, cnt, buf, sendq, apc, areg, sweepQ, 
                  sweepNow, creg, now, tickPending, closed, met, nextVal, ops, exitCnt, evictCnt, 
                  rejectCnt, accepted, refused, valKey, delOblig, waitCover, mustMiss, clearOwed, gets, 
-                 dropped, clrOverlap, raised, bad>>
+                 dropped, lastUpd, clrOverlap, raised, bad>>
 
 \* everything Clear's drain loop receives: the buffer, then the items of the blocked senders
 DrainItems == buf \o [i \in 1..Len(sendq) |-> creg[sendq[i]]]
@@ -566,7 +574,8 @@ ClearDrain(c) ==        \* the drain loop: markers closed, non-update items pass
         \* discarded, not applied, and the map is wiped only later in the same Clear
   /\ UNCHANGED <<store, em, lastCleaned, pol, used, maxCost, door, cnt, apc, areg, sweepQ, sweepNow, creg, 
                  now, tickPending, running, stopq, closed, met, nextVal, ops, rejectCnt, accepted, 
-                 refused, valKey, waitCover, mustMiss, clearOwed, gets, dropped, clrOverlap, raised, bad>>
+                 refused, valKey, waitCover, mustMiss, clearOwed, gets, dropped, lastUpd, clrOverlap, 
+                 raised, bad>>
 
 ClearPolicy(c) ==       \* policy.Clear under the policy lock
   /\ pc[c] = "clr_policy"
@@ -576,7 +585,7 @@ ClearPolicy(c) ==       \* policy.Clear under the policy lock
   /\ UNCHANGED <<store, em, lastCleaned, maxCost, buf, sendq, apc, areg, sweepQ, sweepNow, creg, now, 
                  tickPending, running, stopq, closed, met, nextVal, ops, exitCnt, evictCnt, rejectCnt, 
                  accepted, refused, valKey, delOblig, waitCover, mustMiss, clearOwed, gets, dropped, 
-                 clrOverlap, raised, bad>>
+                 lastUpd, clrOverlap, raised, bad>>
 
 ClearStore(c) ==        \* store.Clear(onEvict) for every shard, expiryMap.clear
   /\ pc[c] = "clr_store"
@@ -588,7 +597,8 @@ ClearStore(c) ==        \* store.Clear(onEvict) for every shard, expiryMap.clear
   /\ pc' = [pc EXCEPT ![c] = "clr_fin"]
   /\ UNCHANGED <<pol, used, maxCost, door, cnt, buf, sendq, apc, areg, sweepQ, sweepNow, creg, now, 
                  tickPending, running, stopq, closed, met, nextVal, ops, rejectCnt, accepted, refused, 
-                 valKey, delOblig, waitCover, mustMiss, clearOwed, gets, dropped, clrOverlap, raised, bad>>
+                 valKey, delOblig, waitCover, mustMiss, clearOwed, gets, dropped, lastUpd, clrOverlap, 
+                 raised, bad>>
 
 ClearRestart(c) ==      \* Metrics.Clear, go processItems(); Clear returns
   /\ pc[c] = "clr_fin"
@@ -604,7 +614,7 @@ ClearRestart(c) ==      \* Metrics.Clear, go processItems(); Clear returns
                           "C15 Clear left a Wait blocked")
   /\ UNCHANGED <<store, em, lastCleaned, pol, used, maxCost, door, cnt, buf, sendq, apc, areg, sweepQ, 
                  sweepNow, creg, now, tickPending, stopq, closed, nextVal, ops, exitCnt, evictCnt, 
-                 rejectCnt, accepted, refused, valKey, delOblig, waitCover, mustMiss, clearOwed, 
+                 rejectCnt, accepted, refused, valKey, delOblig, waitCover, mustMiss, clearOwed, lastUpd, 
                  clrOverlap, raised>>
 
 CloseFinish(c) ==       \* second stop/done rendezvous, channels closed, policy goroutine stopped
@@ -614,7 +624,7 @@ CloseFinish(c) ==       \* second stop/done rendezvous, channels closed, policy 
   /\ UNCHANGED <<store, em, lastCleaned, pol, used, maxCost, door, cnt, buf, sendq, apc, areg, sweepQ, 
                  sweepNow, creg, now, tickPending, stopq, met, nextVal, ops, exitCnt, evictCnt, rejectCnt, 
                  accepted, refused, valKey, delOblig, waitCover, mustMiss, clearOwed, gets, dropped, 
-                 clrOverlap, raised, bad>>
+                 lastUpd, clrOverlap, raised, bad>>
 
 ClosedOp(c, op) ==      \* any call on a closed cache is a no-op
   /\ closed /\ pc[c] = "idle" /\ ops < MaxOps
@@ -623,7 +633,7 @@ ClosedOp(c, op) ==      \* any call on a closed cache is a no-op
   /\ UNCHANGED <<store, em, lastCleaned, pol, used, maxCost, door, cnt, buf, sendq, apc, areg, sweepQ, 
                  sweepNow, pc, creg, now, tickPending, running, stopq, closed, met, nextVal, exitCnt, 
                  evictCnt, rejectCnt, accepted, refused, valKey, delOblig, waitCover, mustMiss, clearOwed, 
-                 gets, dropped, clrOverlap, raised, bad>>
+                 gets, dropped, lastUpd, clrOverlap, raised, bad>>
 
 (* ------------------------------------------------------------------------------------------ *)
 Next ==
